@@ -756,7 +756,6 @@ func (e *env) genPQTime(p *pqCase, n int) gcol {
 }
 
 func (e *env) newPQCase() *pqCase {
-	r := e.r
 	e.seq++
 	return e.newPQCaseN(0)
 }
